@@ -18,21 +18,24 @@
 import MxModel.Gen.KEnergy
 import MxModel.Core.Energy
 import MxModel.Core.Weekly
+import MxModel.Lemmas.KTactic
 
 namespace Mx.KEnergy
 open Mx Mx.Gen
 
-/-! ### `Energy.Entry` of the energy-factory model -/
+/-! ### `Energy.Entry` of the energy-factory model
+
+  Proof style (Lemmas/KTactic.lean): unfold the translated source methods and the model operations
+  down to arithmetic, then `k_solve` (split every `if`, normalise, close by linear arithmetic or by
+  contradiction between the branch conditions).  No proof step names a branch condition or an
+  operand order of the generated text. -/
 
 /-- source `add(future, current, amount_per_epoch)` = model `Entry.add` (never aborts; `amount`
     is the only field written) -/
 theorem add_eq (e : Energy.Entry) (future cur amt : Nat) :
     KEnergy.add future cur amt e.E = some (e.add future cur amt).E := by
-  by_cases h : future ≤ cur
-  · simp only [KEnergy.add, Energy.Entry.add, ge_iff_le, if_pos h, Option.pure_def]
-  · have h' : cur ≤ future := by omega
-    simp only [KEnergy.add, Energy.Entry.add, ge_iff_le, if_neg h, sub?, if_pos h',
-      Option.bind_eq_bind, Option.bind_some, Option.pure_def, Int.ofNat_eq_natCast]
+  k_defs [KEnergy.add, Energy.Entry.add]
+  k_solve
 
 /-- `add` leaves `last_update_epoch` and `total_locked_tokens` alone -/
 theorem add_frame (e : Energy.Entry) (future cur amt : Nat) :
@@ -42,11 +45,8 @@ theorem add_frame (e : Energy.Entry) (future cur amt : Nat) :
 /-- source `subtract(past, current, amount_per_epoch)` = model `Entry.subtract` -/
 theorem subtract_eq (e : Energy.Entry) (past cur amt : Nat) :
     KEnergy.subtract past cur amt e.E = some (e.subtract past cur amt).E := by
-  by_cases h : cur ≤ past
-  · simp only [KEnergy.subtract, Energy.Entry.subtract, ge_iff_le, if_pos h, Option.pure_def]
-  · have h' : past ≤ cur := by omega
-    simp only [KEnergy.subtract, Energy.Entry.subtract, ge_iff_le, if_neg h, sub?, if_pos h',
-      Option.bind_eq_bind, Option.bind_some, Option.pure_def, Int.ofNat_eq_natCast]
+  k_defs [KEnergy.subtract, Energy.Entry.subtract]
+  k_solve
 
 /-- `subtract` leaves `last_update_epoch` and `total_locked_tokens` alone -/
 theorem subtract_frame (e : Energy.Entry) (past cur amt : Nat) :
@@ -57,13 +57,8 @@ theorem subtract_frame (e : Energy.Entry) (past cur amt : Nat) :
     `last_update_epoch`; never aborts -/
 theorem deplete_eq (e : Energy.Entry) (now : Nat) :
     KEnergy.deplete now e.E e.last e.T = some ((e.deplete now).E, (e.deplete now).last) := by
-  by_cases h : e.last = now
-  · simp only [KEnergy.deplete, Energy.Entry.deplete, if_pos h, Option.pure_def]
-  · by_cases ht : 0 < e.T
-    · simp only [KEnergy.deplete, Energy.Entry.deplete, if_neg h, gt_iff_lt, if_pos ht,
-        subtract_eq, Option.bind_eq_bind, Option.bind_some, Option.pure_def]
-    · simp only [KEnergy.deplete, Energy.Entry.deplete, if_neg h, gt_iff_lt, if_neg ht,
-        Option.pure_def]
+  k_defs [KEnergy.deplete, KEnergy.subtract, Energy.Entry.deplete, Energy.Entry.subtract]
+  k_solve
 
 /-- `deplete` does not touch `total_locked_tokens` -/
 theorem deplete_frame (e : Energy.Entry) (now : Nat) : (e.deplete now).T = e.T := by
@@ -77,15 +72,15 @@ theorem deplete_frame (e : Energy.Entry) (now : Nat) : (e.deplete now).T = e.T :
 /-- source `get_energy_amount` = model `Entry.amount` (negative amounts read as 0) -/
 theorem get_energy_amount_eq (e : Energy.Entry) :
     KEnergy.get_energy_amount e.E = some e.amount := by
-  simp only [KEnergy.get_energy_amount, Energy.Entry.amount, gt_iff_lt, Option.pure_def]
-  split <;> rfl
+  k_defs [KEnergy.get_energy_amount, Energy.Entry.amount]
+  k_solve
 
 /-- source `add_after_token_lock(lock_amount, unlock_epoch, current_epoch)` = model `addAfterLock` -/
 theorem add_after_token_lock_eq (e : Energy.Entry) (amt unlock now : Nat) :
     KEnergy.add_after_token_lock amt unlock now e.E e.T =
       some ((e.addAfterLock amt unlock now).E, (e.addAfterLock amt unlock now).T) := by
-  simp only [KEnergy.add_after_token_lock, add_eq, Energy.Entry.addAfterLock, Option.bind_eq_bind,
-    Option.bind_some, Option.pure_def]
+  k_defs [KEnergy.add_after_token_lock, KEnergy.add, Energy.Entry.addAfterLock, Energy.Entry.add]
+  k_solve
 
 /-- `addAfterLock` keeps `last_update_epoch` -/
 theorem addAfterLock_frame (e : Energy.Entry) (amt unlock now : Nat) :
@@ -97,34 +92,29 @@ theorem addAfterLock_frame (e : Energy.Entry) (amt unlock now : Nat) :
 theorem refund_after_token_unlock_eq (e : Energy.Entry) (amt unlock now : Nat) :
     KEnergy.refund_after_token_unlock amt unlock now e.E e.T =
       (e.refundAfterUnlock amt unlock now).map (fun e' => (e'.E, e'.T)) := by
-  by_cases h : amt ≤ e.T
-  · simp only [KEnergy.refund_after_token_unlock, add_eq, Energy.Entry.refundAfterUnlock, sub?,
-      if_pos h, Option.bind_eq_bind, Option.bind_some, Option.pure_def, Option.map_some]
-  · simp only [KEnergy.refund_after_token_unlock, add_eq, Energy.Entry.refundAfterUnlock, sub?,
-      if_neg h, Option.bind_eq_bind, Option.bind_some, Option.bind_none, Option.map_none]
+  k_defs [KEnergy.refund_after_token_unlock, KEnergy.add, Energy.Entry.refundAfterUnlock,
+    Energy.Entry.add]
+  k_solve
 
 /-- source `deplete_after_early_unlock` IS the model's `depleteAfterEarly` -/
 theorem deplete_after_early_unlock_eq (e : Energy.Entry) (amt unlock now : Nat) :
     KEnergy.deplete_after_early_unlock amt unlock now e.E e.T =
       (e.depleteAfterEarly amt unlock now).map (fun e' => (e'.E, e'.T)) := by
-  by_cases h : amt ≤ e.T
-  · simp only [KEnergy.deplete_after_early_unlock, subtract_eq, Energy.Entry.depleteAfterEarly,
-      sub?, if_pos h, Option.bind_eq_bind, Option.bind_some, Option.pure_def, Option.map_some]
-  · simp only [KEnergy.deplete_after_early_unlock, subtract_eq, Energy.Entry.depleteAfterEarly,
-      sub?, if_neg h, Option.bind_eq_bind, Option.bind_some, Option.bind_none, Option.map_none]
+  k_defs [KEnergy.deplete_after_early_unlock, KEnergy.subtract, Energy.Entry.depleteAfterEarly,
+    Energy.Entry.subtract]
+  k_solve
 
 /-- source `update_after_unlock_any` IS the model's `afterUnlockAny` (refund when the unlock epoch
-    has passed, early-unlock depletion otherwise — the comparison is strict) -/
+    has passed, early-unlock depletion otherwise; at `unlock = current` the two branches coincide,
+    both change the amount by 0) -/
 theorem update_after_unlock_any_eq (e : Energy.Entry) (amt unlock now : Nat) :
     KEnergy.update_after_unlock_any amt unlock now e.E e.T =
       (e.afterUnlockAny amt unlock now).map (fun e' => (e'.E, e'.T)) := by
-  by_cases h : unlock < now
-  · simp only [KEnergy.update_after_unlock_any, Energy.Entry.afterUnlockAny, if_pos h,
-      refund_after_token_unlock_eq, Option.bind_eq_bind, Option.pure_def]
-    cases e.refundAfterUnlock amt unlock now <;> rfl
-  · simp only [KEnergy.update_after_unlock_any, Energy.Entry.afterUnlockAny, if_neg h,
-      deplete_after_early_unlock_eq, Option.bind_eq_bind, Option.pure_def]
-    cases e.depleteAfterEarly amt unlock now <;> rfl
+  k_defs [KEnergy.update_after_unlock_any, KEnergy.refund_after_token_unlock,
+    KEnergy.deplete_after_early_unlock, KEnergy.add, KEnergy.subtract, Energy.Entry.afterUnlockAny,
+    Energy.Entry.refundAfterUnlock, Energy.Entry.depleteAfterEarly, Energy.Entry.add,
+    Energy.Entry.subtract]
+  k_solve
 
 /-- a successful model `afterUnlockAny` keeps `last_update_epoch` -/
 theorem afterUnlockAny_frame {e e' : Energy.Entry} {amt unlock now : Nat}
@@ -148,12 +138,12 @@ theorem update_after_unlock_epoch_change_eq (e : Energy.Entry) (amt old new now 
     KEnergy.update_after_unlock_epoch_change amt old new now e.E e.T =
       (e.afterUnlockAny amt old now).map
         (fun e0 => ((e0.addAfterLock amt new now).E, (e0.addAfterLock amt new now).T)) := by
-  simp only [KEnergy.update_after_unlock_epoch_change, update_after_unlock_any_eq,
-    Option.bind_eq_bind, Option.pure_def]
+  k_defs [KEnergy.update_after_unlock_epoch_change, update_after_unlock_any_eq]
   cases e.afterUnlockAny amt old now with
   | none => rfl
   | some e0 =>
-    simp only [Option.map_some, Option.bind_some, add_after_token_lock_eq]
+    simp only [Option.map_some, Option.bind_eq_bind, Option.bind_some, add_after_token_lock_eq,
+      Option.pure_def]
 
 /-- the raw pair used for already-unlockable tokens (cancel_unstake.rs / energy_transfer.rs):
     source `add_energy_raw(amt, 0)` then `remove_energy_raw(0, amt · (now − unlock))` = model
@@ -162,26 +152,22 @@ theorem add_remove_raw_eq (e : Energy.Entry) (amt unlock now : Nat) :
     (do let (a, t) ← KEnergy.add_energy_raw amt 0 e.E e.T
         KEnergy.remove_energy_raw 0 (amt * (now - unlock)) a t) =
       some ((e.addExpired amt unlock now).E, (e.addExpired amt unlock now).T) := by
-  simp only [KEnergy.add_energy_raw, KEnergy.remove_energy_raw, Energy.Entry.addExpired, sub?,
-    Nat.zero_le, if_true, Option.bind_eq_bind, Option.bind_some, Option.pure_def, Int.add_zero,
-    Nat.sub_zero, Int.ofNat_eq_natCast]
+  k_defs [KEnergy.add_energy_raw, KEnergy.remove_energy_raw, Energy.Entry.addExpired]
+  k_solve
 
 /-- source `add_energy_raw` adds both fields and never aborts -/
 theorem add_energy_raw_eq (lockAmt : Nat) (en a : Int) (t : Nat) :
-    KEnergy.add_energy_raw lockAmt en a t = some (a + en, t + lockAmt) := rfl
+    KEnergy.add_energy_raw lockAmt en a t = some (a + en, t + lockAmt) := by
+  k_defs [KEnergy.add_energy_raw]
+  k_solve
 
 /-- source `remove_energy_raw` subtracts both fields; aborts exactly when more tokens are removed
     than are locked -/
 theorem remove_energy_raw_eq (lockAmt en : Nat) (a : Int) (t : Nat) :
     KEnergy.remove_energy_raw lockAmt en a t =
       if t < lockAmt then none else some (a - (en : Int), t - lockAmt) := by
-  by_cases h : lockAmt ≤ t
-  · have h' : ¬ t < lockAmt := by omega
-    simp only [KEnergy.remove_energy_raw, sub?, if_pos h, if_neg h', Option.bind_eq_bind,
-      Option.bind_some, Option.pure_def, Int.ofNat_eq_natCast]
-  · have h' : t < lockAmt := by omega
-    simp only [KEnergy.remove_energy_raw, sub?, if_neg h, if_pos h', Option.bind_eq_bind,
-      Option.bind_none]
+  k_defs [KEnergy.remove_energy_raw]
+  k_solve
 
 /-! ### `Weekly.Energy` (the copy read through `energy_query` by the weekly-rewards modules) -/
 
@@ -190,22 +176,8 @@ theorem remove_energy_raw_eq (lockAmt en : Nat) (a : Int) (t : Nat) :
 theorem weekly_deplete_eq (e : Weekly.Energy) (epoch : Nat) :
     KEnergy.deplete epoch e.amount e.lastUpdateEpoch e.totalLocked =
       some ((e.deplete epoch).amount, (e.deplete epoch).lastUpdateEpoch) := by
-  by_cases h : e.lastUpdateEpoch = epoch
-  · simp only [KEnergy.deplete, Weekly.Energy.deplete, if_pos h, Option.pure_def]
-  · by_cases ht : 0 < e.totalLocked
-    · by_cases hl : e.lastUpdateEpoch < epoch
-      · have h1 : ¬ e.lastUpdateEpoch ≥ epoch := by omega
-        have h2 : e.lastUpdateEpoch ≤ epoch := by omega
-        simp only [KEnergy.deplete, KEnergy.subtract, Weekly.Energy.deplete, if_neg h, gt_iff_lt,
-          if_pos ht, if_neg h1, sub?, if_pos h2, if_pos (And.intro ht hl), Option.bind_eq_bind,
-          Option.bind_some, Option.pure_def, Int.ofNat_eq_natCast]
-      · have h1 : e.lastUpdateEpoch ≥ epoch := by omega
-        have h3 : ¬ (0 < e.totalLocked ∧ e.lastUpdateEpoch < epoch) := fun c => hl c.2
-        simp only [KEnergy.deplete, KEnergy.subtract, Weekly.Energy.deplete, if_neg h, gt_iff_lt,
-          if_pos ht, if_pos h1, if_neg h3, Option.bind_eq_bind, Option.bind_some, Option.pure_def]
-    · have h3 : ¬ (0 < e.totalLocked ∧ e.lastUpdateEpoch < epoch) := fun c => ht c.1
-      simp only [KEnergy.deplete, Weekly.Energy.deplete, if_neg h, gt_iff_lt, if_neg ht, if_neg h3,
-        Option.pure_def]
+  k_defs [KEnergy.deplete, KEnergy.subtract, Weekly.Energy.deplete]
+  k_solve
 
 /-- `Weekly.Energy.deplete` does not touch `total_locked_tokens` -/
 theorem weekly_deplete_frame (e : Weekly.Energy) (epoch : Nat) :
@@ -215,11 +187,8 @@ theorem weekly_deplete_frame (e : Weekly.Energy) (epoch : Nat) :
 /-- source `get_energy_amount` = model `Weekly.Energy.getEnergyAmount` -/
 theorem weekly_get_energy_amount_eq (e : Weekly.Energy) :
     KEnergy.get_energy_amount e.amount = some e.getEnergyAmount := by
-  simp only [KEnergy.get_energy_amount, Weekly.Energy.getEnergyAmount, gt_iff_lt, Option.pure_def]
-  split
-  · rfl
-  · have : e.amount.toNat = 0 := by omega
-    rw [this]
+  k_defs [KEnergy.get_energy_amount, Weekly.Energy.getEnergyAmount]
+  k_solve
 
 /-- the two models of the entry agree: same fields in, same fields out of `deplete` -/
 theorem deplete_models_agree (e : Energy.Entry) (now : Nat) :
